@@ -389,6 +389,30 @@ func treeExCount(n int) int {
 	return c
 }
 
+// genTreeDup: de-duplication under heavy collisions - 4 to 8 nodes in a random shape whose URLs come
+// from a pool of one or two (so three and more nodes share a URL), every status assignment, then
+// dedupe (and complete-and-check).  The exhaustive leg stops at 3 (quick) / 4 (thorough) nodes.
+func genTreeDup(r *Rng) string {
+	n := 4 + r.Intn(5)
+	pool := 1 + r.Intn(2)
+	ops := []string{"seed.0"}
+	for j := 1; j < n; j++ {
+		ops = append(ops, fmt.Sprintf("a%d.%d.c", r.Intn(j), 1+r.Intn(pool)))
+	}
+	for j := 0; j < n; j++ {
+		st := r.Intn(8)
+		if r.Chance(35) {
+			st = 0 // Fresh leaves are what the pipeline de-duplicates most
+		}
+		ops = append(ops, fmt.Sprintf("s%d.%d", j, st))
+	}
+	ops = append(ops, "d")
+	if r.Bool() {
+		ops = append(ops, "k")
+	}
+	return strings.Join(ops, " ")
+}
+
 func genTreeExhaustive(i int) string {
 	n := 1
 	for i >= treeExCount(n) {
@@ -450,8 +474,11 @@ func init() {
 		Footer:   stdFooter,
 		Rule:     "one case = an operation sequence on a real models.Item tree (public API), observed after every op (tree, CheckConsistency rule, max depth, working level, depths without redirections, pointer symmetry, return value); two generators: pipeline-shaped sequences (stage-like passes with duplicate-rich URL pools) and arbitrary API sequences; non-trivial when the sequence adds >= 2 nodes and runs dedupe or complete-and-check",
 		Gen: func(r *Rng, i int, tier string) string {
-			if i%3 == 2 {
+			switch i % 4 {
+			case 2:
 				return genTreeRandom(r)
+			case 3:
+				return genTreeDup(r)
 			}
 			return genTreePipeline(r)
 		},
